@@ -71,6 +71,7 @@ class Dom(RadiiDomain):
         RadiiDomain.__init__(self, repo)
         b = self.builtins
         b['np.min'] = self.b_min_gap
+        b['apply_scaling'] = self.b_apply_scaling
         b['np.shape'] = lambda eng, n, a, k, st: ShapeTok()
         self.inline = set(self.inline) | {'OptimResults.__init__'}
 
@@ -119,8 +120,19 @@ class Dom(RadiiDomain):
     def b_min_gap(self, eng, node, args, kw, st):
         # np.min(xu - xl): the smallest gap between the bounds (ghost G.gap); any other reduction is an unrelated real
         if node.args and ast.unparse(node.args[0]) == 'xu - xl':
-            return st.heap[('G', 'gap')]
+            # G.gap is the smallest gap of the bounds in the solver's INTERNAL variables (the ones rhobeg refers to).  xl / xu denote those only after both have passed through
+            # apply_scaling; before that, with scaling_within_bounds on, the test would compare the caller's raw box with a radius of the unit box (an unrelated number G.gap_raw).
+            sc = st.env.get('scaling_within_bounds')
+            internal = z3.And(st.heap[('G', 'xl_int')], st.heap[('G', 'xu_int')])
+            if isbool(sc):
+                return z3.If(z3.Or(internal, z3.Not(sc)), st.heap[('G', 'gap')], st.heap[('G', 'gap_raw')])
+            return z3.If(internal, st.heap[('G', 'gap')], st.heap[('G', 'gap_raw')])
         return freal('min')
+
+    def b_apply_scaling(self, eng, node, args, kw, st):
+        if node.args and isinstance(node.args[0], ast.Name) and node.args[0].id in ('xl', 'xu'):
+            st.heap[('G', node.args[0].id + '_int')] = z3.BoolVal(True)
+        return UNK
 
     def lib_call(self, eng, e, name, args, kwargs, st):
         if name in self.builtins:
@@ -166,7 +178,7 @@ class ShapeTok:
 
 def build(repo):
     D = Dom(repo)
-    D.ghost_shapes = {'gap': 'real', 'changed': 'changedmap'}
+    D.ghost_shapes = {'gap': 'real', 'changed': 'changedmap', 'gap_raw': 'real', 'xl_int': 'bool', 'xu_int': 'bool'}
     K1, K2, K3 = 'growing.full_rank.use_full_rank_interp', 'growing.perturb_trust_region_step', 'noise.additive_noise_level'
     D.field_shapes[('OptimResults', 'flag')] = 'int'
     D.field_shapes[('OptimResults', 'nf')] = 'int'
@@ -181,6 +193,9 @@ def build(repo):
         st.env['user_params'] = Opt(fbool('up_none'), SymDict('user'))
         st.env['projections'] = UNK
         st.env['n_'] = n
+        # the bounds have not been moved to the internal (scaled) variables yet
+        st.heap[('G', 'xl_int')] = z3.BoolVal(False)
+        st.heap[('G', 'xu_int')] = z3.BoolVal(False)
 
     invalid = [
         ('rhobeg <= 0', 'not isnone(old(rhobeg)) and old(rhobeg) <= 0'),
@@ -202,7 +217,7 @@ def build(repo):
     D.contract('solve', tags=T, setup=setup_solve,
                params={'rhobeg': 'opt:real', 'rhoend': 'real', 'h': 'opt:cb:h', 'npt': 'opt:int', 'maxfun': 'opt:int', 'objfun': 'cb:objfun',
                        'nsamples': 'opt:cb:nsamples', 'lh': 'opt:real', 'prox_uh': 'opt:cb:prox_uh', 'scaling_within_bounds': 'bool'},
-               requires=[], modifies=['params[*]', 'G.changed'], result='unk',
+               requires=[], modifies=['params[*]', 'G.changed', 'G.xl_int', 'G.xu_int'], result='unk',
                loops={'for:tuple#0': ['a parameter has been updated only if the caller\'s dict names it:: implies(changed("%s"), upin("%s")) and implies(changed("%s"), upin("%s"))' % (K1, K1, K2, K2),
                                       'an updated optional parameter holds a value:: implies(changed("%s"), not isnone(params("%s")))' % (K3, K3)]},
                asserts={'before:solve_main#1': [('no path reaches the first evaluation with: %s:: not (%s)' % (lab, ex), 'C07') for lab, ex in invalid],
